@@ -57,7 +57,7 @@ def pulse_inputs(desc, sources, tin, k_on, k_off):
         amp = next((c['val'] for c in desc['comps'] if c['id'] == s), 1.0) or 1.0
         prof = np.zeros(len(tin))
         prof[k_on + 1:k_off + 1] = amp
-        inp[s] = (lambda prof: (lambda t: prof.copy()))(prof)
+        inp[s] = (lambda prof: (lambda t: np.interp(t, tin, prof)))(prof)     # a genuine function of time on the requested axis
     return inp
 
 def time_grid(A, n=240):
@@ -143,7 +143,13 @@ def check_case(ctx, out, desc, origin='random'):
     out.count('lyapunov_checked')
     # simulated energy after a finite pulse (search only)
     sources = list(im.ssm.sources)
-    tin = time_grid(A)
+    # the requested window starts at t0 = m·h (exact in binary64): the supplied waveforms return to zero at sample k_off
+    # of the REQUESTED axis, and from there on the stored energy must not rise
+    tin0 = time_grid(A)
+    h_ = float(tin0[1] - tin0[0])
+    t0 = h_ * ctx.rng('window', str(inp)).choice([0, 0, 5, 17, 37, 64, 1000])
+    tin = t0 + tin0
+    out.count('window:' + ('t0=0' if t0 == 0 else 't0>0'))
     k_on, k_off = 3, len(tin) // 4
     try:
         sol = TransientSolution(im.circuit, tin=tin, input=pulse_inputs(desc, sources, tin, k_on, k_off))
@@ -157,7 +163,8 @@ def check_case(ctx, out, desc, origin='random'):
     if not np.all(np.isfinite(E)) or (len(tail) > 1 and np.max(np.diff(tail)) > 1e-9 * max(1e-30, np.max(E))):
         k = int(np.argmax(np.diff(tail))) if len(tail) > 1 else 0
         out.spec_fail(canon(desc, 'energy_increases'), f'stored energy grows after the input has returned to zero: '
-                      f'E[{k_off + 2 + k}]={tail[k]:.9g} → {tail[k + 1]:.9g}', inp, impl=dict(A=A.tolist()), desc=desc); return
+                      f'E[{k_off + 2 + k}]={tail[k]:.9g} → {tail[k + 1]:.9g} (window starts at t0 = {t0}; the supplied waveforms are zero from '
+                      f't = {tin[k_off + 1]} on)', inp, impl=dict(A=A.tolist()), desc=desc); return
     out.count('energy_checked')
     out.sample(inp)
 
